@@ -553,3 +553,37 @@ impl Property for C07EndOne {
     }
     fn schedule_mut<'a>(&self, case: &'a mut ChanCase) -> Option<&'a mut Schedule> { Some(&mut case.schedule) }
 }
+
+// ---------------------------------------------------------------------------------------------------------------------
+// C08 under the controlled scheduler: reservations kept outstanding / sent / cancelled while consumers poll concurrently
+
+pub static RESERVE_KINDS: [ChanKind; 5] = [ChanKind::UniMoveAtomic, ChanKind::UniZcAtomic, ChanKind::UniZcFullSync, ChanKind::MultiOgreAtomic, ChanKind::MultiOgreFullSync];
+
+pub struct C08Sched;
+impl Property for C08Sched {
+    type Case = ChanCase;
+    fn part(&self) -> &'static str { "reserved-slots-sched" }
+    fn strategy(&self, _tier: Tier) -> BoxedStrategy<ChanCase> {
+        case_strategy(Gen { kinds: &RESERVE_KINDS, max_streams: &[1, 2], buffers: &[2, 4, 8], max_producers: 1, max_ops: 8, max_consumers: 2, retry: false, origins: true, prefill: true, reserve_ops: true, ..Default::default() })
+    }
+    fn cases(&self, tier: Tier) -> u32 { match tier { Tier::Quick => 5_000, Tier::Thorough => 100_000 } }
+    fn run(&self, case: &ChanCase) -> RunReport {
+        let run = execute(case, Epilogue { drain: true, capacity_probe: true, ..Default::default() });
+        let mut judged = if run.end == EndState::Completed { if case.kind.is_uni() { uni::judge_delivery_uni(case, &run) } else { uni::judge_delivery_multi(case, &run) } } else { None };
+        if judged.is_none() && run.end == EndState::Completed {
+            if let Some(n) = run.capacity_probe { if n != case.buffer as u32 {
+                judged = Some((format!("{}/capacity-after-reservations", case.kind.short()), format!("after every reservation was sent or cancelled and everything was consumed and released, {n} of BUFFER_SIZE+1={} sends were accepted (expected exactly {}); history: {}", case.buffer + 1, case.buffer, run.render())));
+            } }
+        }
+        let sent = run.sends.iter().filter(|s| s.entry == Entry::Reserved && s.accepted).count();
+        let cancelled = run.sends.iter().filter(|s| s.cancelled).count();
+        let mut classes = base_classes(case);
+        if sent > 0 { classes.push("reserved-sent".into()); }
+        if cancelled > 0 { classes.push("reserved-cancelled".into()); }
+        finish(case, &run, classes, run.inside > 0 && sent + cancelled > 0, judged)
+    }
+    fn rule(&self) -> String {
+        "generated: the 5 kinds implementing reserve_slot / try_send_reserved / try_cancel_slot_reserve x BUFFER_SIZE {2,4,8} x MAX_STREAMS {1,2} x counter origin x pending events x ONE producer (the property quantifies over one reserving thread plus concurrently polling consumers; on the movable atomic ring a reservation of another thread in between makes reverse-order cancellation impossible by documented design) with a script of 1..8 steps over {plain sends, reserve (kept outstanding), fill+send the oldest outstanding reservation (retried while it answers false), cancel the newest (retried), ...} x 1..2 concurrently polling consumers x schedule (documented restrictions respected: movable atomic -- no plain send while the thread holds a reservation);          oracle: delivery ledger (a slot whose send answered true is delivered exactly once with the value written, a cancelled one never, nothing invented) -- a send_reserved / cancel that can never answer true is a decided stall -- and after completion + drain + release exactly BUFFER_SIZE further sends are accepted;          non-trivial: a thread was switched out inside an operation and a reservation was sent or cancelled".into()
+    }
+    fn schedule_mut<'a>(&self, case: &'a mut ChanCase) -> Option<&'a mut Schedule> { Some(&mut case.schedule) }
+}
